@@ -768,6 +768,8 @@ class Sim:
         finally:
             self.world.current = None
             self.world.interrupt_at = None  # an interrupt armed for this call never outlives it
+            if rec.app is not None:
+                rec.app.__dict__.pop("evaluate", None)  # nor does an interrupt armed for its evaluate()
             # files that appear during a call on this wrapper belong to it (whenever the code chooses to create them)
             for n in set(os.listdir(self.tmp)) - listing0:
                 self.adopt(n, rec)
